@@ -1,38 +1,2 @@
-import OpyVerif.Proofs.InitProg
-import OpyVerif.Generated.Init
-/-!
-C06 (construction clause) about the *translated* `_initialize_agents` methods.
--/
-namespace Opy
-
-/-- search spaces, as translated on this run: draws inside the intervals the loop asks for give agents inside the declared
-    box, each carrying the declared bounds (which its own `check_limits` then leaves alone) -/
-theorem code_searchInit (lbs ubs : List Int) (v : Nat) (draws : List Pos) (h : lbs.length = ubs.length)
-    (hd : ∀ p ∈ draws, InBox lbs ubs p) :
-    ∃ agents, Gen.searchInit.run lbs ubs v draws = some agents ∧ Gen.searchInit.ranges lbs ubs v = List.zip lbs ubs ∧
-      ∀ a ∈ agents, InBox lbs ubs a.pos ∧ a.lb = lbs ∧ a.ub = ubs ∧ clipPos a.lb a.ub a.pos = a.pos := by
-  rw [Gen.searchInit_eq]
-  refine ⟨_, searchInit_is_initSearch lbs ubs v draws h, searchInit_ranges lbs ubs v, fun a ha => ?_⟩
-  obtain ⟨h1, h2, h3⟩ := initSearch_feasible lbs ubs draws hd a ha
-  exact ⟨h1, h2, h3, initSearch_clip_noop lbs ubs draws hd a ha⟩
-
-/-- tree spaces initialise their agents by the same loop -/
-theorem code_treeInit (lbs ubs : List Int) (v : Nat) (draws : List Pos) (h : lbs.length = ubs.length)
-    (hd : ∀ p ∈ draws, InBox lbs ubs p) :
-    ∃ agents, Gen.treeInit.run lbs ubs v draws = some agents ∧
-      ∀ a ∈ agents, InBox lbs ubs a.pos ∧ a.lb = lbs ∧ a.ub = ubs := by
-  rw [Gen.treeInit_eq]
-  exact ⟨_, searchInit_is_initSearch lbs ubs v draws h, initSearch_feasible lbs ubs draws hd⟩
-
-/-- hypercomplex spaces: every row is asked from the unit interval and the agents keep the unit bounds, whatever bounds
-    the space declares -/
-theorem code_hyperInit (lbs ubs : List Int) (v : Nat) (draws : List Pos)
-    (hd : ∀ p ∈ draws, InBox (List.replicate v keyZero) (List.replicate v keyOne) p) :
-    ∃ agents, Gen.hyperInit.run lbs ubs v draws = some agents ∧
-      Gen.hyperInit.ranges lbs ubs v = List.replicate v (keyZero, keyOne) ∧
-      ∀ a ∈ agents, InBox (List.replicate v keyZero) (List.replicate v keyOne) a.pos ∧
-        a.lb = List.replicate v keyZero ∧ a.ub = List.replicate v keyOne := by
-  rw [Gen.hyperInit_eq]
-  exact ⟨_, hyperInit_is_initHyper lbs ubs v draws, hyperInit_ranges lbs ubs v, initHyper_feasible v draws hd⟩
-
-end Opy
+import OpyVerif.Proofs.InitCodeSearch
+import OpyVerif.Proofs.InitCodeHyper
